@@ -86,10 +86,10 @@ int cmdRun(int argc, char** argv) {
 			JArr ju;
 			for (auto& t : U) ju.add(relabelName(t));
 			// variants: plain load+save; strings of known blocks edited before saving; a copy (constructed / assigned) is saved
-			const char* variants[] = {"plain", "edited", "copied", "assigned", "duplicate-strings", "zero-sized-unknown-only"};
+			const char* variants[] = {"plain", "edited", "copied", "assigned", "duplicate-strings", "zero-sized-unknown-only", "shape-order-requested"};
 			const std::string original = bytes;
 			const std::string pristine = readFile(samplePath(c["file"].s));
-			for (int vi = 0; vi < 6; vi++)
+			for (int vi = 0; vi < 7; vi++)
 				for (int def = 0; def < 2; def++) {
 					if (vi >= 2 && ((k + def) % 2)) continue; // copies: alternate the save option to bound the work
 					bytes = original;
@@ -118,6 +118,12 @@ int cmdRun(int argc, char** argv) {
 						NifFile copy2;
 						if (vi == 3) copy2 = loaded;
 						NifFile& nif = vi == 2 ? copy1 : (vi == 3 ? copy2 : loaded);
+						if (vi == 6) {
+							// an explicit shape order is requested (reversed names): with unknown blocks nothing may move
+							auto names = nif.GetShapeNames();
+							std::reverse(names.begin(), names.end());
+							nif.SetShapeOrder(names);
+						}
 						if (vi == 1) {
 							// rename every known node and retarget the first texture slot of every shape
 							for (auto n : nif.GetNodes()) n->name.get() += "_renamed";
